@@ -80,12 +80,18 @@ func sameSnapC08(tag string, a, b snapshotC08) {
 
 // VH_C08_mem: object PUT and part upload with free body, declared length,
 // Content-MD5 variants, reader failures; rejected uploads change nothing.
-func VH_C08_mem() {
+func VH_C08_mem() { c08Scenario(kindMem) }
+
+// VH_C08: the same scenario on the backend tier selected by "backend".
+func VH_C08() { c08Scenario(backendKind()) }
+
+func c08Scenario(kind int) {
 	integrity := vsym.Choice("integrity", 2) == 1
-	h, _ := newMemServer(gofakes3.WithIntegrityCheck(integrity))
-	vsym.Assert(Do(h, Req{Method: "PUT", Path: "/bkt"}).Code() == 200, "C08/create-bucket")
+	h, _ := newServerKind(kind, gofakes3.WithIntegrityCheck(integrity))
+	mkBucket(h, kind, "C08")
 	key := "k"
-	if vsym.Choice("prior", 2) == 1 {
+	lite := vsym.Param("lite", 0) == 1 // fewer independent dimensions (quick tier on the non-memory backends)
+	if lite || vsym.Choice("prior", 2) == 1 {
 		vsym.Assert(Do(h, BodyReq("PUT", "/bkt/k", http.Header{"Content-Type": {"old/type"}, "X-Amz-Meta-A": {"old"}}, []byte("old"))).Code() == 200, "C08/prior")
 	}
 	target := vsym.Choice("target", 2) // 0 object PUT, 1 part upload
@@ -105,7 +111,11 @@ func VH_C08_mem() {
 	if vsym.Choice("fails", 2) == 1 {
 		failAt = vsym.Choice("failat", L+1)
 	}
-	rd := &failingBody{data: body, frag: 1 + vsym.Choice("frag", 2), failAt: failAt}
+	frag := 1
+	if !lite {
+		frag = 1 + vsym.Choice("frag", 2)
+	}
+	rd := &failingBody{data: body, frag: frag, failAt: failAt}
 
 	hdr := http.Header{"Content-Type": {"new/type"}, "X-Amz-Meta-A": {"new"}}
 	md5kind := vsym.Choice("md5", 5)
@@ -131,7 +141,7 @@ func VH_C08_mem() {
 		}
 		digestOK = false
 	}
-	missingLength := vsym.Choice("nolength", 2) == 1
+	missingLength := !lite && vsym.Choice("nolength", 2) == 1
 	if !missingLength {
 		hdr.Set("Content-Length", itoa(declared))
 	}
